@@ -921,6 +921,25 @@ theorem C04_wrapper_constructors_text :
       "{ var accessCallbackCommandsFilter Command if len(commandsFilter) == 0 { accessCallbackCommandsFilter = AllCommands } else { for _, filterCommand := range commandsFilter { accessCallbackCommandsFilter |= filterCommand } } return &debugStore{ underlying: store, accessCallback: callback, accessCallbackCommandsFilter: accessCallbackCommandsFilter, } }" :=
   ⟨rfl, rfl, rfl⟩
 
+/-- The functions of `kvstore.go` / `utils.go` whose models are written by hand (`copyStep`, `copybStep` and their traces and fault
+paths; `getIterDirection`; `upperBound`; `sortSlice`; `copyBytes`) are pinned as normalised source text: any edit of `Copy`,
+`CopyBatched`, `GetIterDirection`, `KeyPrefixUpperBound`, `SortSlice`, `CopyBytes` breaks this obligation, also one the call lists
+cannot see (a changed condition, a swapped comparison, another increment). -/
+theorem C04_helper_functions_text :
+    text_kvstore_Copy =
+      "{ var innerErr error if err := source.Iterate(EmptyPrefix, func(key, value Value) bool { if err := target.Set(key, value); err != nil { innerErr = err } return innerErr == nil }); err != nil { return err } if innerErr != nil { return innerErr } return target.Flush() }" ∧
+    text_kvstore_CopyBatched =
+      "{ batchedSize := 0 if len(batchSize) > 0 { batchedSize = batchSize[0] } currentBatchSize := 0 batchedMutation, err := target.Batched() if err != nil { return err } var innerErr error if err := source.Iterate(EmptyPrefix, func(key, value Value) bool { currentBatchSize++ if err := batchedMutation.Set(key, value); err != nil { innerErr = err } if batchedSize != 0 && currentBatchSize >= batchedSize { if err := batchedMutation.Commit(); err != nil { innerErr = err } currentBatchSize = 0 batchedMutation, err = target.Batched() if err != nil { innerErr = err } } return innerErr == nil }); err != nil { batchedMutation.Cancel() return err } if innerErr != nil { batchedMutation.Cancel() return innerErr } if err := batchedMutation.Commit(); err != nil { return err } return target.Flush() }" ∧
+    text_kvstore_GetIterDirection =
+      "{ direction := IterDirectionForward if len(iterDirection) > 0 { switch iterDirection[0] { case IterDirectionForward: break case IterDirectionBackward: direction = iterDirection[0] default: panic(fmt.Sprintf(\"unknown iteration direction: %d\", iterDirection[0])) } } return direction }" ∧
+    text_utils_KeyPrefixUpperBound =
+      "{ end := make([]byte, len(start)) copy(end, start) for i := len(end) - 1; i >= 0; i-- { end[i]++ if end[i] != 0 { return end[:i+1] } } return nil }" ∧
+    text_utils_SortSlice =
+      "{ switch kvstore.GetIterDirection(iterDirection...) { case kvstore.IterDirectionForward: sort.Sort(sort.StringSlice(slice)) case kvstore.IterDirectionBackward: sort.Sort(sort.Reverse(sort.StringSlice(slice))) } return slice }" ∧
+    text_utils_CopyBytes =
+      "{ targetSize := len(source) if len(size) > 0 { targetSize = size[0] } cpy := make([]byte, targetSize) copy(cpy, source) return cpy }" :=
+  ⟨rfl, rfl, rfl, rfl, rfl, rfl⟩
+
 /-- **The traces the driver prints are `sem`**: what `traceOp` (the function `drv_c04` answers the recorded events with)
 says for a request on a view / batch with stack `ws` is the trace model `sem` of that stack — the very function the two
 theorems above derive from the source layer by layer. -/
